@@ -433,6 +433,51 @@ func runC20(r *ev.Run) {
 			}
 		}
 	}
+	// the generator writing over its own earlier output: one directory, the four configurations of one schema generated into
+	// it one after the other (longest first, then in the opposite order); after each generation every file on disk must be
+	// what a generation into an empty directory gives
+	for _, variant := range variants {
+		text := c20Schema(variant, true)
+		var schema ovsdb.DatabaseSchema
+		if err := json.Unmarshal([]byte(text), &schema); err != nil {
+			panic(err)
+		}
+		type cfgT struct{ extended, enums bool }
+		order := []cfgT{{true, true}, {true, false}, {false, true}, {false, false}, {false, true}, {true, false}, {true, true}}
+		dir := filepath.Join(scratch, fmt.Sprintf("regen%d", variant))
+		os.MkdirAll(dir, 0o755)
+		gen, err := modelgen.NewGenerator()
+		if err != nil {
+			panic(err)
+		}
+		for step, cf := range order {
+			r.Add("evaluations", 1)
+			r.Add("regenerations", 1)
+			want, err := c20Generate(schema, "gendb", cf.extended, cf.enums)
+			if err != nil {
+				continue // reported above
+			}
+			for name, table := range schema.Tables {
+				table := table
+				args := modelgen.GetTableTemplateData("gendb", name, &table)
+				args.WithExtendedGen(cf.extended)
+				args.WithEnumTypes(cf.enums)
+				if err := gen.Generate(filepath.Join(dir, modelgen.FileName(name)), modelgen.NewTableTemplate(), args); err != nil {
+					r.Violation("c20.regenerate-error", fmt.Sprintf("[schema%d step %d extended=%v enums=%v] Generate(%s): %v", variant, step, cf.extended, cf.enums, name, err), nil)
+				}
+			}
+			if err := gen.Generate(filepath.Join(dir, "model.go"), modelgen.NewDBTemplate(), modelgen.GetDBTemplateData("gendb", schema)); err != nil {
+				r.Violation("c20.regenerate-error", fmt.Sprintf("[schema%d step %d] Generate(model.go): %v", variant, step, err), nil)
+			}
+			for n, b := range want {
+				got, err := os.ReadFile(filepath.Join(dir, n))
+				if err != nil || !bytes.Equal(got, b) {
+					r.Violation("c20.regenerated-file-differs", fmt.Sprintf("[schema%d] step %d (extended=%v enums=%v) written over the previous generation: %s on disk (%d bytes, err=%v) differs from a fresh generation (%d bytes)", variant, step, cf.extended, cf.enums, n, len(got), err, len(b)), map[string]interface{}{"file": n, "step": step})
+					break
+				}
+			}
+		}
+	}
 	// known problematic shapes, each in its own tiny schema so that they are signed separately
 	for name, col := range map[string]string{
 		"integer-enum": `{"type":{"key":{"type":"integer","enum":["set",[1,2,3]]}}}`,
